@@ -10,12 +10,13 @@ from sa.rules import argstr, where
 DECIDED = [
     "SPEC(builtin variant, the one the build uses): each aws_{add,mul}_{u32,u64}_{checked,saturating} returns / stores exactly a OP b when it fits its own result type and reports overflow / the type's maximum otherwise - decided for all operand values by abstract interpretation with the overflow builtins' specification",
     "SPEC(sub, size_t dispatchers, min/max): subtraction fails iff a < b and otherwise yields a - b (saturating: 0); size_t forms forward both operands in order to the 64-bit form and inherit its specification; min/max return one of their operands and bound both",
-    "SPEC(portable fallback, add/sub): the division-free overflow predicates of math.fallback.inl are exact for all operands",
+    "SPEC(portable fallback): the overflow predicates of math.fallback.inl - division-free for add/sub, floor division by the second operand for mul (NUM: q*b <= MAX < q*b + b with product lemmas) - are exact for all operands",
+    "ASM-FLAG: in the x86-64 assembly variants the arithmetic instruction matches the operation and width (add/mul, q for 64-bit, l for 32-bit) and the instruction that consumes the flags reads the carry flag for unsigned addition (setc/cmovc/jnc...; the overflow flag is the SIGNED overflow there) and carry or overflow for mul (CF = OF)",
     "SHIFT: in the portable bit scans (ctz) the mask `1 << idx` is at least as wide as the value it is and-ed with, so every bit of the value can be tested",
     "VARIANTS: the builtin, x86-64 assembly and portable variants define the same functions with identical signatures",
     "CONVERT: aws_timestamp_convert_u64 asserts non-zero frequencies before dividing, uses only saturating multiply/add on tick quantities, its one raw subtraction/multiplication cannot wrap (quotient lemma), and writes the remainder only under new < old and old % new == 0",
 ]
-NOT_DECIDED = ["the portable multiplication predicate (floor division by a variable)", "the assembly variants' bodies", "the counts computed by the clz/ctz loops (only the mask widths) and the power-of-two bit tricks", "the numeric value of the conversion formula"]
+NOT_DECIDED = ["the assembly variants' data flow beyond the instruction / flag pairing and operand discipline", "the counts computed by the clz/ctz loops (only the mask widths) and the power-of-two bit tricks", "the numeric value of the conversion formula"]
 ASSUMPTIONS = ["__builtin_{add,mul}_overflow store the wrapped result and return whether the mathematical result does not fit the pointee type (compiler documentation)"]
 
 NAMES = ["aws_mul_u64_saturating", "aws_mul_u64_checked", "aws_mul_u32_saturating", "aws_mul_u32_checked", "aws_add_u64_checked", "aws_add_u64_saturating", "aws_add_u32_checked", "aws_add_u32_saturating"]
@@ -221,11 +222,12 @@ def fallback(ctx, R, replace):
                 "signatures differ: builtin %s, asm %s, fallback %s" % (sig(ship), sig(asm), sig(fb)))
         R.fn(fb)
         op = "+" if "_add_" in nm else "*"
-        spec_check(R, P2, fb, op, "checked" if nm.endswith("checked") else "saturating", "SPEC", "fallback", allow_undecided=(op == "*"))
+        spec_check(R, P2, fb, op, "checked" if nm.endswith("checked") else "saturating", "SPEC", "fallback")
         asms = [e for e in asm.all_events() if e.kind == "asm"]
         R.check(len(asms) >= 1, "VARIANTS", "asm-variant-is-asm:%s" % nm, "math.gcc_x64_asm.inl", "assembly variant present (instruction semantics not analysed)")
         for e in asms:
             early_clobber(R, asm, e, nm)
+            asm_flags(R, asm, e, nm)
     shift_widths(R, P2)
 
 
@@ -258,6 +260,32 @@ def shift_widths(R, P2):
                             "the %s-bit mask %s covers the %s-bit value %s" % (ws, f.show(s), wo, f.show(o)),
                             "the mask %s is %s bits wide but the value it scans (%s) has %s: the upper bits are never tested and the variants disagree" % (f.show(s), ws, f.show(o), wo))
     R.require(n >= 2, "only %d bit-scan masks found in the portable variant" % n)
+
+
+CARRY = {"c", "nc", "b", "nb", "ae", "nae"}
+OVERFLOW = {"o", "no"}
+
+
+def asm_flags(R, f, e, nm):
+    """ASM-FLAG: instruction / flag pairing of the assembly helpers (x86 semantics: unsigned add overflow is CF; after
+    mul CF = OF = upper half non-zero; OF after add is the signed overflow, ZF/SF say nothing about overflow)"""
+    import re
+    lines = [l.strip() for l in e.node.get("asm", "").split("\n") if l.strip()]
+    ops = [re.split(r"\s+", l)[0] for l in lines]
+    op = "add" if "_add_" in nm else "mul"
+    w = "q" if "u64" in nm else "l"
+    arith = [o for o in ops if re.match(r"^(add|adc|sub|mul|imul|lea|inc|dec|shl|sal)", o)]
+    loc = "include/aws/common/math.gcc_x64_asm.inl:%d in %s()" % (e.node.get("loc", [0])[0], nm)
+    R.check(arith == [op + w], "ASM-FLAG", "instruction:%s" % nm, loc, "one `%s%s`" % (op, w), "the arithmetic instructions are %s, expected one `%s%s` (operation / operand width of %s)" % (arith, op, w, nm))
+    cons = []
+    for o in ops:
+        m = re.match(r"^(set|cmov|j)([a-z]+)$", o)
+        if m and m.group(2) not in ("mp",):
+            cons.append((o, m.group(2)))
+    allowed = CARRY if op == "add" else (CARRY | OVERFLOW)
+    bad = [o for o, cc in cons if cc not in allowed]
+    R.check(len(cons) == 1 and not bad, "ASM-FLAG", "flag:%s" % nm, loc, "the flags are consumed once, by `%s` (%s)" % (cons[0][0] if cons else "?", "carry" if op == "add" else "carry = overflow after mul"),
+            "the overflow of an unsigned %s is read with %s: for an unsigned add the carry flag is the overflow (the overflow flag is the signed overflow: MAX + 1 is accepted and 0x7f..f + 1 refused)" % (op, [o for o, cc in cons]))
 
 
 def early_clobber(R, f, e, nm):
@@ -365,6 +393,8 @@ def convert(R, P):
 
 MUTANTS = [
     {"name": "ctz64-int-mask", "file": "include/aws/common/math.fallback.inl", "expect": "SHIFT", "old": "        if (n & (1ULL << idx)) {", "new": "        if (n & (1 << idx)) {"},
+    {"name": "asm-add-reads-signed-overflow", "file": "include/aws/common/math.gcc_x64_asm.inl", "expect": "ASM-FLAG", "old": "    __asm__(\"addq %[argb], %[arga]\\n\" /* [arga] = [arga] + [argb] */\n            \"setc %[flag]\\n\"", "new": "    __asm__(\"addq %[argb], %[arga]\\n\" /* [arga] = [arga] + [argb] */\n            \"seto %[flag]\\n\""},
+    {"name": "fallback-mul-refuses-exact-quotient", "file": "include/aws/common/math.fallback.inl", "expect": "SPEC", "old": "AWS_STATIC_IMPL int aws_mul_u64_checked(uint64_t a, uint64_t b, uint64_t *r) {\n    if (a > 0 && b > 0 && a > (UINT64_MAX / b))", "new": "AWS_STATIC_IMPL int aws_mul_u64_checked(uint64_t a, uint64_t b, uint64_t *r) {\n    if (b > 0 && a >= (UINT64_MAX / b))"},
     {"name": "asm-output-not-early-clobber", "file": "include/aws/common/math.gcc_x64_asm.inl", "expect": "VARIANTS", "old": '[arg2] "+&r"(b)', "new": '[arg2] "+r"(b)'},
     {"name": "remainder-modulo-old-frequency", "file": "include/aws/common/clock.inl", "expect": "CONVERT", "old": "*remainder = ticks % frequency_ratio;", "new": "*remainder = ticks % old_frequency;"},
     {"name": "u64-saturates-to-u32-max", "file": "include/aws/common/math.gcc_overflow.inl", "expect": "SPEC",
